@@ -35,19 +35,72 @@ Qed.
 
 Definition quiescent (s : st) : Prop := forall t, thr s t = Idle.
 
+(* projections of the individual steps (kept small so that the solo theorems below chain them without unfolding states) *)
+Ltac proj := cbn [head tail etail dhead buf thr published delivered log set_thr]; rewrite ?upd_same; repeat split; auto.
+
+Lemma stepP0 s t v : thr s t = P0 v ->
+  thr (step s t) t = P1 v (etail s) /\ head (step s t) = head s /\ tail (step s t) = tail s /\ etail (step s t) = etail s + 1 /\
+  dhead (step s t) = dhead s /\ buf (step s t) = buf s /\ log (step s t) = log s /\ published (step s t) = published s /\ delivered (step s t) = delivered s.
+Proof. intros H. unfold stepZ, RingModel.step, idz. rewrite H. proj. Qed.
+Lemma stepP1 s t v slot : thr s t = P1 v slot ->
+  thr (step s t) t = (if slot - head s <? N then P3 v slot (slot - head s) else P2 v slot) /\ head (step s t) = head s /\ tail (step s t) = tail s /\
+  etail (step s t) = etail s /\ dhead (step s t) = dhead s /\ buf (step s t) = buf s /\ log (step s t) = log s /\ published (step s t) = published s /\ delivered (step s t) = delivered s.
+Proof. intros H. unfold stepZ, RingModel.step, idz. rewrite H. destruct (slot - head s <? N); proj. Qed.
+Lemma stepP2 s t v slot : thr s t = P2 v slot -> etail s = slot + 1 ->
+  thr (step s t) t = Idle /\ head (step s t) = head s /\ tail (step s t) = tail s /\ etail (step s t) = slot /\
+  dhead (step s t) = dhead s /\ buf (step s t) = buf s /\ log (step s t) = log s ++ [(t, RFull v)] /\ published (step s t) = published s /\ delivered (step s t) = delivered s.
+Proof. intros H He. unfold stepZ, RingModel.step, idz. rewrite H, He, Z.eqb_refl. proj. Qed.
+Lemma stepP3 s t v slot len : thr s t = P3 v slot len ->
+  thr (step s t) t = P4 v slot len /\ head (step s t) = head s /\ tail (step s t) = tail s /\ etail (step s t) = etail s /\
+  dhead (step s t) = dhead s /\ log (step s t) = log s /\ published (step s t) = published s /\ delivered (step s t) = delivered s.
+Proof. intros H. unfold stepZ, RingModel.step, idz. rewrite H. proj. Qed.
+Lemma stepP4 s t v slot len : thr s t = P4 v slot len -> tail s = slot ->
+  thr (step s t) t = Idle /\ head (step s t) = head s /\ tail (step s t) = slot + 1 /\ etail (step s t) = etail s /\
+  dhead (step s t) = dhead s /\ log (step s t) = log s ++ [(t, ROk v (len + 1))].
+Proof. intros H He. unfold stepZ, RingModel.step, idz. rewrite H, He, Z.eqb_refl. proj. Qed.
+Lemma stepC0 s t : thr s t = C0 ->
+  thr (step s t) t = C1 (dhead s) /\ head (step s t) = head s /\ tail (step s t) = tail s /\ dhead (step s t) = dhead s + 1 /\
+  buf (step s t) = buf s /\ log (step s t) = log s /\ published (step s t) = published s.
+Proof. intros H. unfold stepZ, RingModel.step, idz. rewrite H. proj. Qed.
+Lemma stepC1 s t slot : thr s t = C1 slot ->
+  thr (step s t) t = (if 0 <? tail s - slot then C3 slot else C2 slot) /\ head (step s t) = head s /\ tail (step s t) = tail s /\
+  dhead (step s t) = dhead s /\ buf (step s t) = buf s /\ log (step s t) = log s /\ published (step s t) = published s.
+Proof. intros H. unfold stepZ, RingModel.step, idz. rewrite H. destruct (0 <? tail s - slot); proj. Qed.
+Lemma stepC3 s t slot : thr s t = C3 slot ->
+  thr (step s t) t = C4 slot (buf s (slot mod N)) /\ head (step s t) = head s /\ tail (step s t) = tail s /\
+  dhead (step s t) = dhead s /\ log (step s t) = log s /\ published (step s t) = published s.
+Proof. intros H. unfold stepZ, RingModel.step, idz. rewrite H. proj. Qed.
+Lemma stepC4 s t slot v : thr s t = C4 slot v -> head s = slot ->
+  head (step s t) = slot + 1 /\ tail (step s t) = tail s /\ log (step s t) = log s ++ [(t, RGot v)].
+Proof. intros H He. unfold stepZ, RingModel.step, idz. rewrite H, He, Z.eqb_refl. proj. Qed.
+Lemma start_idle s t o : thr s t = Idle ->
+  thr (start s t o) t = (match o with OpPub v => P0 v | OpCons => C0 | OpLen => L0 end) /\ head (start s t o) = head s /\ tail (start s t o) = tail s /\
+  etail (start s t o) = etail s /\ dhead (start s t o) = dhead s /\ buf (start s t o) = buf s /\ log (start s t o) = log s /\
+  published (start s t o) = published s /\ delivered (start s t o) = delivered s.
+Proof. intros H. unfold start. rewrite H. proj. Qed.
+
 (* a send on a quiescent ring with room is accepted in exactly 4 of its own steps ... *)
 Theorem solo_send_accepted evs t v :
   let s := run evs in
   quiescent s -> tail s - head s < N ->
-  let s' := fold_left exec [Start t (OpPub v); Step t; Step t; Step t; Step t] s in
+  let s' := step (step (step (step (start s t (OpPub v)) t) t) t) t in
   log s' = log s ++ [(t, ROk v (tail s - head s + 1))] /\ tail s' = tail s + 1 /\ head s' = head s /\ thr s' t = Idle.
 Proof.
   cbn zeta. intros Hq Hroom. set (s := run evs) in *.
   destruct (quiescent_no_reservations N Npos evs Hq) as [He Hd]. fold s in He, Hd.
-  cbn [fold_left]. unfold execZ, RingModel.exec, start, stepZ, RingModel.step, idz.
-  rewrite (Hq t). cbn. rewrite !upd_same. cbn. rewrite He.
-  destruct (Z.ltb_spec (tail s - head s) N); [|lia]. cbn. rewrite !upd_same. cbn. rewrite !upd_same. cbn.
-  rewrite Z.eqb_refl. cbn. rewrite upd_same. auto.
+  destruct (start_idle s t (OpPub v) (Hq t)) as (A0 & A1 & A2 & A3 & A4 & A5 & A6 & A7 & A8).
+  set (s0 := start s t (OpPub v)) in *.
+  destruct (stepP0 s0 t v A0) as (B0 & B1 & B2 & B3 & B4 & B5 & B6 & B7 & B8).
+  set (s1 := step s0 t) in *.
+  destruct (stepP1 s1 t v (etail s0) B0) as (C0' & C1' & C2' & C3' & C4' & C5' & C6' & C7' & C8').
+  set (s2 := step s1 t) in *.
+  assert (Hlt : (etail s0 - head s1 <? N) = true) by (apply Z.ltb_lt; lia).
+  rewrite Hlt in C0'.
+  destruct (stepP3 s2 t v _ _ C0') as (D0 & D1 & D2 & D3 & D4 & D5 & D6 & D7).
+  set (s3 := step s2 t) in *.
+  destruct (stepP4 s3 t v _ _ D0) as (E0 & E1 & E2 & E3 & E4 & E5); [lia|].
+  repeat split; try lia; auto.
+  rewrite E5, D5, C6', B6, A6. replace (etail s0 - head s1 + 1) with (tail s - head s + 1) by lia. reflexivity.
 Qed.
 
 (* ... and on a quiescent full ring it is rejected in exactly 3 of its own steps, handing the payload back and leaving every
@@ -55,32 +108,48 @@ Qed.
 Theorem solo_send_rejected evs t v :
   let s := run evs in
   quiescent s -> N <= tail s - head s ->
-  let s' := fold_left exec [Start t (OpPub v); Step t; Step t; Step t] s in
+  let s' := step (step (step (start s t (OpPub v)) t) t) t in
   log s' = log s ++ [(t, RFull v)] /\ head s' = head s /\ tail s' = tail s /\ etail s' = etail s /\ dhead s' = dhead s /\
   buf s' = buf s /\ published s' = published s /\ delivered s' = delivered s /\ thr s' t = Idle.
 Proof.
   cbn zeta. intros Hq Hfull. set (s := run evs) in *.
   destruct (quiescent_no_reservations N Npos evs Hq) as [He Hd]. fold s in He, Hd.
-  cbn [fold_left]. unfold execZ, RingModel.exec, start, stepZ, RingModel.step, idz.
-  rewrite (Hq t). cbn. rewrite !upd_same. cbn. rewrite He.
-  destruct (Z.ltb_spec (tail s - head s) N); [lia|]. cbn. rewrite !upd_same. cbn.
-  rewrite Z.eqb_refl. cbn. rewrite upd_same. repeat split; auto.
+  destruct (start_idle s t (OpPub v) (Hq t)) as (A0 & A1 & A2 & A3 & A4 & A5 & A6 & A7 & A8).
+  set (s0 := start s t (OpPub v)) in *.
+  destruct (stepP0 s0 t v A0) as (B0 & B1 & B2 & B3 & B4 & B5 & B6 & B7 & B8).
+  set (s1 := step s0 t) in *.
+  destruct (stepP1 s1 t v (etail s0) B0) as (C0' & C1' & C2' & C3' & C4' & C5' & C6' & C7' & C8').
+  set (s2 := step s1 t) in *.
+  assert (Hge : (etail s0 - head s1 <? N) = false) by (apply Z.ltb_ge; lia).
+  rewrite Hge in C0'.
+  destruct (stepP2 s2 t v _ C0') as (D0 & D1 & D2 & D3 & D4 & D5 & D6 & D7 & D8); [lia|].
+  repeat split; try congruence; try lia.
 Qed.
 
-(* a consume on a quiescent non-empty ring yields the oldest pending value in exactly 5 of its own steps *)
+(* a consume on a quiescent non-empty ring yields the oldest pending value in exactly 4 of its own steps *)
 Theorem solo_consume evs t :
   let s := run evs in
   quiescent s -> head s < tail s ->
-  let s' := fold_left exec [Start t OpCons; Step t; Step t; Step t; Step t; Step t] s in
+  let s' := step (step (step (step (start s t OpCons) t) t) t) t in
   log s' = log s ++ [(t, RGot (nthz (published s) (head s)))] /\ head s' = head s + 1 /\ tail s' = tail s.
 Proof.
   cbn zeta. intros Hq Hne. set (s := run evs) in *.
   pose proof (inv_reachable N Npos evs) as I. fold s in I.
   destruct (quiescent_no_reservations N Npos evs Hq) as [He Hd]. fold s in He, Hd.
-  cbn [fold_left]. unfold execZ, RingModel.exec, start, stepZ, RingModel.step, idz.
-  rewrite (Hq t). cbn. rewrite !upd_same. cbn. rewrite Hd.
-  destruct (Z.ltb_spec 0 (tail s - head s)); [|lia]. cbn. rewrite !upd_same. cbn. rewrite !upd_same. cbn.
-  rewrite Z.eqb_refl. cbn. rewrite (i_buf _ _ I (head s)) by lia. auto.
+  destruct (start_idle s t OpCons (Hq t)) as (A0 & A1 & A2 & A3 & A4 & A5 & A6 & A7 & A8).
+  set (s0 := start s t OpCons) in *.
+  destruct (stepC0 s0 t A0) as (B0 & B1 & B2 & B3 & B4 & B5 & B6).
+  set (s1 := step s0 t) in *.
+  destruct (stepC1 s1 t _ B0) as (C0' & C1' & C2' & C3' & C4' & C5' & C6').
+  set (s2 := step s1 t) in *.
+  assert (Hlt : (0 <? tail s1 - dhead s0) = true) by (apply Z.ltb_lt; lia).
+  rewrite Hlt in C0'.
+  destruct (stepC3 s2 t _ C0') as (D0 & D1 & D2 & D3 & D4 & D5).
+  set (s3 := step s2 t) in *.
+  destruct (stepC4 s3 t _ _ D0) as (E0 & E1 & E2); [lia|].
+  repeat split; try lia.
+  rewrite E2, D4, C5', B5, A6. repeat f_equal.
+  rewrite C4', B4, A5, A4, Hd. apply (i_buf _ _ I). lia.
 Qed.
 
 End RingSolo.
